@@ -99,6 +99,19 @@ class C18(XsProp):
                     cs.append('xs limits 3000 - - | push I5 | eval %s | stack' % hexsrc(e + '>'))
                 else:
                     cs.append('xs limits 3000 - - | eval %s | stack' % hexsrc(e + '>'))
+        # padding-mark texts (witness family of the repaired D39: `"#####" zero85>` panicked inside the z85 crate): every text of one
+        # group over a four-letter alphabet containing the decoder's padding mark, runs of the mark alone, and a valid group followed by them
+        import itertools
+        for e, mark, al4 in (('zero85', '#', '#01%'), ('base32', '=', '=AQ7'), ('base32hex', '=', '=0GZ'), ('base64', '=', '=AQ/')):
+            glen = 5 if e == 'zero85' else (4 if e == 'base64' else 8)
+            texts = [mark * k for k in range(0, 3 * glen + 1)]
+            if glen <= 5:
+                texts += [''.join(t) for t in itertools.product(al4, repeat=glen)]
+            else:
+                texts += [''.join(rng.choice(al4) for _ in range(glen)) for _ in range(400)]
+            texts += [''.join(rng.choice(al4) for _ in range(glen)) + mark * k for k in range(1, glen + 1) for _ in range(6)]
+            for t in texts:
+                cs.append('xs limits 3000 - - | push %s | eval %s | stack' % (cells.fmt(('S', t.encode())), hexsrc(e + '>')))
         # encode accepts exactly what >bitstr + byte export accepts
         for _ in range(200 if not thorough else 4000):
             c = cells.rand_cell(rng, types=['bits', 'bits', 'str', 'vec', 'int', 'nil', 'map'])
@@ -112,6 +125,7 @@ class C18(XsProp):
         n = inval = 0
         for c, o in zip(cases, impl):
             if 'PANIC' in o:
+                fails.append(('case: %s\nresult: %s' % (c, o[:300]), 'the word panicked'))
                 continue
             ou = o.split(' | ')
             st = c.split(' | ')
